@@ -262,10 +262,13 @@ type Violation struct {
 	Detail    string            `json:"detail,omitempty"`
 	Decisions []int             `json:"decisions,omitempty"`
 	Replay    string            `json:"replay,omitempty"`
+	Threaded  bool              `json:"threaded,omitempty"`
+	Schedule  []int             `json:"schedule,omitempty"`
 	Confirmed string            `json:"confirmed,omitempty"`
 }
 
 type PathSample struct {
+	Threaded bool              `json:"threaded,omitempty"`
 	Harness  string            `json:"harness"`
 	Shape    int               `json:"shape"`
 	Assign   map[string]uint64 `json:"assign"`
@@ -483,6 +486,12 @@ func (env *Env) runPath(h *Harness, shape int, prefix []int, s *Solver) (pr path
 		if pr.violation != nil {
 			pr.violation.Harness = h.Name
 			pr.violation.Shape = shape
+			if len(in.threads) > 1 {
+				pr.violation.Threaded = true
+				if in.ss != nil {
+					pr.violation.Schedule = append([]int{}, in.ss.trace...)
+				}
+			}
 		}
 	}()
 	in.runInits()
